@@ -251,6 +251,15 @@ def c03_b(ctx: Ctx):
     rem = ctx.fn("signac.job:Job.remove")
     rm = [e for e in ctx.effects.direct(rem) if e.prim == "shutil.rmtree"]
     if not rm:
+        # the tree removal may live in a helper: take the call statement whose closure removes a tree
+        from ..calls import Effect
+        for (cn, tg, ext) in ctx.calls.callees(rem):
+            if isinstance(cn, ast.Call) and tg:
+                eff, _ = ctx.effects.transitive(tg)
+                if any(x.prim == "shutil.rmtree" for x in eff):
+                    rm = [Effect("delete", "shutil.rmtree", rem, cn, cn.args[0] if cn.args else None)]
+                    break
+    if not rm:
         out.append(ctx.inc(R, rem, rem.node, "remove() does not call shutil.rmtree"))
     else:
         cfg = ctx.cfg(rem)
